@@ -464,13 +464,26 @@ pub fn drain_count(max_rounds: usize) -> (bool, usize) {
   (next_due().is_none(), max_rounds)
 }
 
-/// one tick of virtual time = 1 ns (so that every unit-truncation of a small
+thread_local! {
+  static UNIT: std::cell::Cell<u64> = const { std::cell::Cell::new(1) };
+}
+/// length of one tick in ns for the cases run on this thread from now on (`run_one` puts it back to 1 before every
+/// case). With a unit of 0.7 s or 1 s + 1 ns every duration of a case crosses the second boundary in an uneven way,
+/// so a unit truncation (`as_secs`, whole-second slicing) shows as an event that is off the tick grid / too early.
+/// Cases that use hour-scale `_at` instants keep the unit at 1 (HOUR / TOL are tick counts at 1 ns).
+pub fn set_unit(ns: u64) {
+  UNIT.with(|u| u.set(ns.max(1)));
+}
+pub fn unit() -> u64 {
+  UNIT.with(|u| u.get())
+}
+/// one tick of virtual time = 1 ns by default (so that every unit-truncation of a small
 /// delay - as_micros, as_millis, as_secs - changes the behaviour)
 pub fn ticks(n: u64) -> Duration {
-  Duration::from_nanos(n)
+  Duration::from_nanos(n.saturating_mul(unit()))
 }
 pub fn as_ticks(d: Duration) -> u64 {
-  d.as_nanos() as u64
+  (d.as_nanos() / unit() as u128) as u64
 }
 /// one hour / ten minutes in ticks
 pub const HOUR: u64 = 3_600_000_000_000;
